@@ -315,5 +315,123 @@ class ImagesLoadGate(Contract):
         return "Images.deserialize of a version %r document with one record under %r/%r" % (inputs["version"], inputs["variant"], inputs["arch"])
 
 
+class VariantsTopLevelGate(Contract):
+    """composeinfo Variants.deserialize on the document {S: rec, S-O: rec} (S, O symbolic; S may or may not list O as its child) for EVERY
+    header version: which UIDs are read as TOP-LEVEL variants.  Before 1.0 parentage is implied by the UID prefix (S-O is S's child: only
+    S is top level); from 1.0 on it is explicit (S-O is top level iff S does not list it).  Each top-level UID is read once, in sorted
+    order, and registered.  Variant.deserialize / add are recorded (their own contracts)."""
+    name = "productmd.composeinfo.Variants.deserialize[top-level selection by version]"
+    key = "gate:composeinfo.Variants.deserialize"
+
+    def __init__(self, src, T):
+        self.src, self.T = src, T
+
+    def setup(self, E):
+        from pyvc.engine import Entry
+        ci = E.instantiate(("composeinfo", "ComposeInfo"))
+        ver = SV(sym.Val.VStr(z3.Const("hdr.version", sym.S)))
+        ci.fields["header"].fields["version"] = ver
+        E.assume(F.valid_header(self.T, ci.fields["header"]))
+        S = SV(sym.Val.VStr(z3.Const("doc.S", sym.S)))
+        O = SV(sym.Val.VStr(z3.Const("doc.O", sym.S)))
+        E.assume(And(sym.in_lang(S, r"[A-Za-z0-9]+"), sym.in_lang(O, r"[A-Za-z0-9]+")))
+        SO = sym.concat(S, "-", O)
+        listed = bool(E.decide(E.fresh("S_lists_O_as_child", z3.BoolSort())))
+
+        def D(items):
+            d = E.models.new_dict("doc")
+            for k, v in items:
+                d.entries.append(Entry(k, True, v))
+            return d
+        recS = D([("uid", S)] + ([("variants", [O])] if listed else []))
+        recSO = D([("uid", SO)])
+        order = [(S, recS), (SO, recSO)]
+        if E.decide(E.fresh("document_order_reversed", z3.BoolSort())):
+            order.reverse()
+        sec = D(order)
+        data = D([("variants", sec)])
+        calls = []
+
+        def mk(n):
+            def summ(E_, obj, args, kwargs):
+                calls.append((n, obj, list(args)))
+                return None
+            return summ
+        self._stubs = [(("composeinfo", "Variant"), "deserialize"), (("composeinfo", "VariantBase"), "add"), (("composeinfo", "Variants"), "add")]
+        for k in self._stubs:
+            E.summaries[k] = mk(k[1])
+        return {"ci": ci, "ver": ver, "S": S, "SO": SO, "listed": listed, "data": data, "sec": sec, "calls": calls}
+
+    def call(self, E, st):
+        try:
+            return E.call(E.getattr_(st["ci"].fields["variants"], "deserialize"), [st["data"]])
+        finally:
+            for k in self._stubs:
+                E.summaries.pop(k, None)
+
+    def post(self, E, st, out):
+        if out.kind == "raise":
+            return {"selection_does_not_fail_for_wellformed_version": False}
+        v = version_parts(E, st["ver"])
+        legacy = lt(v, (1, 0))
+        reads = [c for c in st["calls"] if c[0] == "deserialize"]
+        adds = [c for c in st["calls"] if c[0] == "add"]
+        uids = [c[2][1] for c in reads]
+        from_section = all(c[2][0] is st["sec"] for c in reads)
+        paired = len(adds) == len(reads) and all(a[2][0] is r[1] for a, r in zip(adds, reads))
+        only_S = len(uids) == 1 and _veq(uids[0], st["S"])
+        both = len(uids) == 2 and And(_veq(uids[0], st["S"]), _veq(uids[1], st["SO"]))        # S < S-O in every ordering
+        if st["listed"]:
+            sel = only_S
+        else:
+            sel = And(Implies(legacy, only_S), Implies(Not(legacy), both)) if (only_S is not False or both is not False) else False
+        return {"selection_does_not_fail_for_wellformed_version": True,
+                "top_level_uids_as_documented_for_every_version": sel,
+                "each_read_from_the_variants_section_and_registered_once": from_section and paired}
+
+    def concretise(self, model, st):
+        return {"version": concretise.value_of(model, st["ver"]), "S": concretise.value_of(model, st["S"]),
+                "SO": concretise.value_of(model, st["SO"]), "listed": st["listed"]}
+
+    def sample_inputs(self, rng):
+        for ver in ("0.0", "0.3", "0.9", "1.0", "1.1", "1.2", "2.0", "0.10"):
+            for listed in (False, True):
+                yield {"version": ver, "S": "Server", "SO": "Server-optional", "listed": listed}
+
+    def native_eval(self, inputs):
+        import re
+        from pyvc.verify import native_call
+        CI = self.src.mods["composeinfo"]
+        ci = CI.ComposeInfo()
+        ci.header.version = inputs["version"]
+        if not re.match(r"^\d+\.\d+$", inputs["version"]):
+            return ("skip", None), None
+        calls = []
+        orig = CI.Variant.deserialize
+        CI.Variant.deserialize = lambda self_, d, uid: calls.append(("deserialize", self_, d, uid))
+        ci.variants.add = lambda v, **kw: calls.append(("add", v))
+        S, SO = inputs["S"], inputs["SO"]
+        sec = {S: dict({"uid": S}, **({"variants": [SO[len(S) + 1:]]} if inputs["listed"] else {})), SO: {"uid": SO}}
+        try:
+            nat = native_call(ci.variants.deserialize, {"variants": sec})
+        finally:
+            CI.Variant.deserialize = orig
+        if nat[0] == "raise":
+            return nat, {"selection_does_not_fail_for_wellformed_version": False}
+        legacy = tuple(int(x) for x in inputs["version"].split(".")) < (1, 0)
+        reads = [c for c in calls if c[0] == "deserialize"]
+        adds = [c for c in calls if c[0] == "add"]
+        uids = [c[3] for c in reads]
+        exp = [S] if (inputs["listed"] or legacy) else [S, SO]
+        return nat, {"selection_does_not_fail_for_wellformed_version": True,
+                     "top_level_uids_as_documented_for_every_version": uids == exp,
+                     "each_read_from_the_variants_section_and_registered_once": all(c[2] is sec for c in reads) and
+                     len(adds) == len(reads) and all(a[1] is r[1] for a, r in zip(adds, reads))}
+
+    def describe(self, inputs):
+        return "composeinfo Variants.deserialize of a version %r document with variants %r and %r (%s)" % (
+            inputs["version"], inputs["S"], inputs["SO"], "listed as child" if inputs["listed"] else "not listed as child")
+
+
 def contracts(src, T):
-    return [Gate(src, T, g) for g in GATES] + [HeaderRead(src, T, "common"), HeaderRead(src, T, "treeinfo"), ImagesLoadGate(src, T)]
+    return [Gate(src, T, g) for g in GATES] + [HeaderRead(src, T, "common"), HeaderRead(src, T, "treeinfo"), ImagesLoadGate(src, T), VariantsTopLevelGate(src, T)]
